@@ -163,7 +163,8 @@ def classic_2mul(a: fp.Real, b: fp.Real):
 
     # the precision is the caller's context's, so it is read before switching
     p = core.max_p()
-    with fp.INTEGER:
+    # `p / 2` is not an integer for an odd precision: the ceiling is taken of the exact quotient
+    with fp.REAL:
         s = fp.ceil(p / 2)
 
     ah, al = veltkamp_split(a, s)
